@@ -6,8 +6,10 @@ import (
 	"os"
 	"os/exec"
 	"path/filepath"
+	"slices"
 	"sort"
 	"strings"
+	"sync"
 	"sync/atomic"
 	"time"
 )
@@ -38,6 +40,9 @@ type Args struct {
 	// HangS: a single run that is still executing after this many seconds of wall
 	// time is reported as a hang candidate (0: default 60; runs take milliseconds).
 	HangS float64 `json:"hang_s"`
+	// Skip: scenarios this engine cannot schedule on this tree (a task blocks in a
+	// primitive outside the simulator's control, see hang.go); their runs are left out.
+	Skip []string `json:"skip,omitempty"`
 }
 
 // ReplayFile is the on-disk format of a violation's replay: scenario + choice trace.
@@ -62,27 +67,30 @@ type ReplayFile struct {
 }
 
 type agg struct {
-	Runs       int            `json:"runs"`
-	Overruns   int            `json:"overruns"`
-	Restarted  int            `json:"restarted"` // worker processes that died without a verdict and were run again
-	Retired    int            `json:"retired"`   // workers that stopped early after a run whose goroutines did not exit (engine B)
-	Ops        int            `json:"ops"`
-	Steps      int            `json:"steps"`
-	SimNanos   int64          `json:"sim_nanos"`
-	Faults     map[string]int `json:"faults"`
-	Probes     map[string]int `json:"probes"`
-	Lin        map[string]int `json:"lin"`
-	PerScen    map[string]int `json:"per_scenario"`
-	Shapes     []uint64       `json:"shapes"`
-	Scheds     []uint64       `json:"scheds"`
-	States     []uint64       `json:"states"`
-	KnownHits  map[string]int `json:"known_hits"`
-	Samples    [][]string     `json:"samples"`
-	Violation  *Result        `json:"violation,omitempty"`
-	ViolRun    int            `json:"viol_run"`
-	Harness    string         `json:"harness,omitempty"`
-	WallS      float64        `json:"wall_s"`
-	Nontrivial int            `json:"nontrivial"`
+	Runs      int `json:"runs"`
+	Overruns  int `json:"overruns"`
+	Restarted int `json:"restarted"` // worker processes that died without a verdict and were run again
+	// Unschedulable: scenarios left out because a run of theirs stopped moving with a task
+	// blocked in an operation the simulator does not control (scenario -> where)
+	Unschedulable map[string]string `json:"unschedulable,omitempty"`
+	Retired       int               `json:"retired"` // workers that stopped early after a run whose goroutines did not exit (engine B)
+	Ops           int               `json:"ops"`
+	Steps         int               `json:"steps"`
+	SimNanos      int64             `json:"sim_nanos"`
+	Faults        map[string]int    `json:"faults"`
+	Probes        map[string]int    `json:"probes"`
+	Lin           map[string]int    `json:"lin"`
+	PerScen       map[string]int    `json:"per_scenario"`
+	Shapes        []uint64          `json:"shapes"`
+	Scheds        []uint64          `json:"scheds"`
+	States        []uint64          `json:"states"`
+	KnownHits     map[string]int    `json:"known_hits"`
+	Samples       [][]string        `json:"samples"`
+	Violation     *Result           `json:"violation,omitempty"`
+	ViolRun       int               `json:"viol_run"`
+	Harness       string            `json:"harness,omitempty"`
+	WallS         float64           `json:"wall_s"`
+	Nontrivial    int               `json:"nontrivial"`
 }
 
 func addMap(dst, src map[string]int) {
@@ -192,7 +200,12 @@ type hangReport struct {
 	Scenario string  `json:"scenario"`
 	Seed     uint64  `json:"seed"`
 	Seconds  float64 `json:"seconds"`
+	hangVerdict
 }
+
+// staticAfter: how long a run must have been executing before it is looked at for the
+// first time (a run in which nothing moves is not going to start moving again).
+const staticAfter = 8 * time.Second
 
 func (a *Args) hangLimit() time.Duration {
 	if a.HangS > 0 {
@@ -201,12 +214,27 @@ func (a *Args) hangLimit() time.Duration {
 	return 60 * time.Second
 }
 
-func hangWatch(cur *atomic.Pointer[runMark], limit time.Duration, onHang func(*runMark, time.Duration)) {
+func hangWatch(cur *atomic.Pointer[runMark], limit time.Duration, onHang func(*runMark, time.Duration, hangVerdict)) {
+	var looked *runMark
 	for {
 		time.Sleep(500 * time.Millisecond)
-		if m := cur.Load(); m != nil {
-			if el := time.Since(m.Start); el > limit {
-				onHang(m, el)
+		m := cur.Load()
+		if m == nil {
+			continue
+		}
+		el := time.Since(m.Start)
+		if el > limit {
+			v := classifyHang()
+			if cur.Load() != m {
+				continue // it ended while being looked at
+			}
+			onHang(m, el, v)
+			return
+		}
+		if el > min(staticAfter, limit) && looked != m {
+			looked = m
+			if v := classifyHang(); v.Static && v.Where != "" && cur.Load() == m {
+				onHang(m, el, v)
 				return
 			}
 		}
@@ -227,16 +255,26 @@ func worker(all []*Scenario, a *Args) int {
 	states := map[uint64]struct{}{}
 	sampled := map[string]bool{}
 	var cur atomic.Pointer[runMark]
-	go hangWatch(&cur, a.hangLimit(), func(m *runMark, el time.Duration) {
-		data, _ := json.Marshal(hangReport{Run: m.Run, Scenario: m.Scenario, Seed: m.Seed, Seconds: el.Seconds()})
+	go hangWatch(&cur, a.hangLimit(), func(m *runMark, el time.Duration, v hangVerdict) {
+		data, _ := json.Marshal(hangReport{Run: m.Run, Scenario: m.Scenario, Seed: m.Seed, Seconds: el.Seconds(), hangVerdict: v})
 		os.WriteFile(a.Out+".hang", data, 0o644)
+		if v.Static {
+			os.Exit(5) // nothing moves: not a verdict about the library (hang.go)
+		}
 		os.Exit(4)
 	})
+	skip := map[string]bool{}
+	for _, n := range a.Skip {
+		skip[n] = true
+	}
 	for k := a.Index; a.MaxRuns <= 0 || k < a.MaxRuns; k += a.Workers {
 		if time.Since(start).Seconds() > a.BudgetS {
 			break
 		}
 		scn := wheel[k%len(wheel)]
+		if skip[scn.Name] {
+			continue
+		}
 		seed := mixSeed(a.Seed, k)
 		cur.Store(&runMark{Run: k, Scenario: scn.Name, Seed: seed, Start: time.Now()})
 		res := RunOne(scn, a.Tier, seed, NewChoices(seed), false)
@@ -344,7 +382,11 @@ func replay(all []*Scenario, a *Args) int {
 	}
 	var cur atomic.Pointer[runMark]
 	cur.Store(&runMark{Scenario: scn.Name, Seed: rf.Seed, Start: time.Now()})
-	go hangWatch(&cur, a.hangLimit(), func(m *runMark, el time.Duration) {
+	go hangWatch(&cur, a.hangLimit(), func(m *runMark, el time.Duration, v hangVerdict) {
+		if v.Static {
+			fmt.Printf("replay: the run did not finish within %.0f s of wall time, and nothing in it moves: %s\nthis engine cannot schedule the scenario on this tree (a task is blocked in an operation the simulator does not control); not a verdict about the library\n", el.Seconds(), v.Where)
+			os.Exit(3)
+		}
 		fmt.Printf("replay: %s %s/hang/%s\nthe run did not finish within %.0f s of wall time\n", scn.Property, scn.Property, scn.Name, el.Seconds())
 		if strings.Contains(rf.Class, "/hang/") {
 			os.Exit(1)
@@ -398,13 +440,12 @@ func selfExe() string {
 	return exe
 }
 
-var spawnCount int
+var spawnCount atomic.Int64
 
 func spawn(a *Args, stdout, stderr *os.File) *exec.Cmd {
 	data, _ := json.Marshal(a)
 	cmd := exec.Command(selfExe(), "-test.run", "^TestSim$", "-test.timeout", "0", "-test.cpu", "1")
-	spawnCount++
-	raceLog := filepath.Join(os.TempDir(), fmt.Sprintf("verif-race-%d-%d", os.Getpid(), spawnCount))
+	raceLog := filepath.Join(os.TempDir(), fmt.Sprintf("verif-race-%d-%d", os.Getpid(), spawnCount.Add(1)))
 	cmd.Env = append(os.Environ(), "VERIF_ARGS="+string(data), "GOMAXPROCS=1", "VERIF_RACE_LOG="+raceLog, "GORACE=log_path="+raceLog+" halt_on_error=0 exitcode=0")
 	cmd.Stdout = stdout
 	cmd.Stderr = stderr
@@ -510,11 +551,14 @@ func driver(all []*Scenario, a *Args) int {
 		cmds = append(cmds, cmd)
 	}
 	var watchdogFired atomic.Bool
+	var procMu sync.Mutex // guards cmds (workers that are started again are added)
 	watchdog := time.AfterFunc(time.Duration((a.BudgetS*3+120)*float64(time.Second)), func() {
 		watchdogFired.Store(true)
+		procMu.Lock()
 		for _, c := range cmds {
 			c.Process.Kill()
 		}
+		procMu.Unlock()
 	})
 	total := &agg{Faults: map[string]int{}, Probes: map[string]int{}, Lin: map[string]int{}, PerScen: map[string]int{}, KnownHits: map[string]int{}, ViolRun: -1}
 	shapes := map[uint64]struct{}{}
@@ -523,33 +567,102 @@ func driver(all []*Scenario, a *Args) int {
 	broken := ""
 	var hang *hangReport
 	restarted := 0
-	for i, cmd := range cmds {
-		err := cmd.Wait()
-		errOut, _ := os.ReadFile(filepath.Join(tmp, fmt.Sprintf("w%d.err", i)))
-		data, rerr := os.ReadFile(filepath.Join(tmp, fmt.Sprintf("w%d.json", i)))
-		if ee, ok := err.(*exec.ExitError); rerr != nil && ok && ee.ExitCode() != 4 && !watchdogFired.Load() {
-			// The worker process died without a verdict (the runtime could not get a
-			// thread or memory, or it was killed from outside). A worker is a pure function of
-			// (seed, index), so its share is executed again from the start, once; if it dies
-			// again the trouble is reported.
-			firstErr := tail(string(errOut), 1500)
-			wa := *a
-			wa.Mode = "worker"
-			wa.Index = i
-			wa.Known = knownClasses
-			wa.Out = filepath.Join(tmp, fmt.Sprintf("w%d.json", i))
-			if rem := a.BudgetS - time.Since(start).Seconds(); rem > 10 {
-				wa.BudgetS = rem
-			} else {
-				wa.BudgetS = 10
+	unschedulable := map[string]string{}
+
+	// Each worker is waited for (and, where that is called for, started again) on its own.
+	type workerEnd struct {
+		data      []byte
+		rerr      error
+		err       error
+		errOut    []byte
+		restarted int
+		unsched   map[string]string
+		broken    string
+	}
+	first := slices.Clone(cmds)
+	ends := make([]workerEnd, len(first))
+	var wg sync.WaitGroup
+	for i := range first {
+		wg.Add(1)
+		go func(i int, cmd *exec.Cmd) {
+			defer wg.Done()
+			e := &ends[i]
+			e.unsched = map[string]string{}
+			outPath := filepath.Join(tmp, fmt.Sprintf("w%d.json", i))
+			errPath := filepath.Join(tmp, fmt.Sprintf("w%d.err", i))
+			var skip []string
+			again := func() *exec.Cmd {
+				wa := *a
+				wa.Mode = "worker"
+				wa.Index = i
+				wa.Known = knownClasses
+				wa.Out = outPath
+				wa.Skip = skip
+				if rem := a.BudgetS - time.Since(start).Seconds(); rem > 10 {
+					wa.BudgetS = rem
+				} else {
+					wa.BudgetS = 10
+				}
+				errf, _ := os.Create(errPath)
+				c2 := spawn(&wa, errf, errf)
+				procMu.Lock()
+				cmds = append(cmds, c2)
+				procMu.Unlock()
+				return c2
 			}
-			errf, _ := os.Create(filepath.Join(tmp, fmt.Sprintf("w%d.err", i)))
-			c2 := spawn(&wa, errf, errf)
-			err = c2.Run()
-			restarted++
-			fmt.Fprintf(os.Stderr, "note: worker %d died without a result (exit %d) and was run again; its first stderr ended with:\n%s\n", i, ee.ExitCode(), firstErr)
-			errOut, _ = os.ReadFile(filepath.Join(tmp, fmt.Sprintf("w%d.err", i)))
-			data, rerr = os.ReadFile(filepath.Join(tmp, fmt.Sprintf("w%d.json", i)))
+			e.err = cmd.Wait()
+			for attempt := 0; ; attempt++ {
+				e.errOut, _ = os.ReadFile(errPath)
+				e.data, e.rerr = os.ReadFile(outPath)
+				ee, exited := e.err.(*exec.ExitError)
+				if e.rerr == nil || !exited || watchdogFired.Load() {
+					return
+				}
+				switch code := ee.ExitCode(); {
+				case code == 5 && attempt < 8:
+					// A run in which nothing moves any more (hang.go): the scenario cannot be
+					// scheduled by this engine on this tree. The worker's share is executed
+					// again without that scenario.
+					var hr hangReport
+					hd, _ := os.ReadFile(outPath + ".hang")
+					if json.Unmarshal(hd, &hr) != nil || hr.Scenario == "" {
+						e.broken = fmt.Sprintf("worker %d reported a run that does not move but left no description", i)
+						return
+					}
+					if hr.Where == "" {
+						e.broken = fmt.Sprintf("worker %d: run %d of %s (seed %d) stopped moving with every task parked by the simulator itself", i, hr.Run, hr.Scenario, hr.Seed)
+						return
+					}
+					os.Remove(outPath + ".hang")
+					e.unsched[hr.Scenario] = hr.Where
+					skip = append(skip, hr.Scenario)
+					e.err = again().Run()
+				case code != 4 && code != 5 && e.restarted == 0:
+					// The worker process died without a verdict (the runtime could not get a
+					// thread or memory, or it was killed from outside). A worker is a pure function of
+					// (seed, index), so its share is executed again from the start, once; if it dies
+					// again the trouble is reported.
+					firstErr := tail(string(e.errOut), 1500)
+					e.restarted++
+					e.err = again().Run()
+					fmt.Fprintf(os.Stderr, "note: worker %d died without a result (exit %d) and was run again; its first stderr ended with:\n%s\n", i, code, firstErr)
+				default:
+					return
+				}
+			}
+		}(i, first[i])
+	}
+	wg.Wait()
+	for i := range ends {
+		e := &ends[i]
+		err, errOut, data, rerr := e.err, e.errOut, e.data, e.rerr
+		restarted += e.restarted
+		for k, v := range e.unsched {
+			unschedulable[k] = v
+		}
+		if e.broken != "" {
+			broken = e.broken
+			continue
 		}
 		if rerr != nil {
 			code := -1
@@ -602,6 +715,7 @@ func driver(all []*Scenario, a *Args) int {
 	}
 	watchdog.Stop()
 	total.Restarted = restarted
+	total.Unschedulable = unschedulable
 	if broken != "" {
 		fmt.Fprintln(os.Stderr, "HARNESS ERROR (exit 2, not a violation):", broken)
 		return 2
@@ -635,6 +749,9 @@ func driver(all []*Scenario, a *Args) int {
 		a.Property, a.Tier, total.Runs, total.Ops, total.Steps, len(shapes), len(scheds), len(states), float64(total.SimNanos)/1e9, time.Since(start).Seconds())
 	if len(total.Faults) > 0 {
 		fmt.Printf("  faults fired: %v\n", total.Faults)
+	}
+	for _, name := range sortedStrKeys(total.Unschedulable) {
+		fmt.Printf("WARN: engine %s cannot schedule scenario %s on this tree and left it out: a task is blocked in an operation the simulator does not control (%s); this is not a verdict about the library\n", a.Engine, name, total.Unschedulable[name])
 	}
 	if total.Retired > 0 {
 		fmt.Printf("  note: %d worker process(es) retired early after a run whose goroutines did not exit within 60 s of real time (run discarded)\n", total.Retired)
@@ -803,4 +920,13 @@ func sortedU64(m map[uint64]struct{}) []uint64 {
 	}
 	sort.Slice(out, func(i, j int) bool { return out[i] < out[j] })
 	return out
+}
+
+func sortedStrKeys(m map[string]string) []string {
+	ks := make([]string, 0, len(m))
+	for k := range m {
+		ks = append(ks, k)
+	}
+	sort.Strings(ks)
+	return ks
 }
